@@ -38,7 +38,8 @@ func clockStart() {
 	if !clockInit {
 		clockInit = true
 		clock = I64("clk.start")
-		Assume(clock >= 1<<20 && clock <= 1<<60)
+		Assume(clock >= 1<<20)
+		Assume(clock <= 1<<60)
 	}
 }
 
@@ -46,7 +47,8 @@ func clockStart() {
 func ClockNow() int64 {
 	clockStart()
 	d := I64("clk.d")
-	Assume(d >= 0 && d <= ClockDelta)
+	Assume(d >= 0)
+	Assume(d <= ClockDelta)
 	clock += d
 	return clock
 }
